@@ -29,7 +29,8 @@ class PType:
             return {"val": "This", "cref": "const This &", "sptr": "This *"}[self.mode]
         n = self.name if self.kind != "eig" else "gtsam::" + self.name
         if self.kind == "class":
-            return {"val": n, "cref": "const %s &" % n, "ref": n + " &", "sptr": n + " *", "rptr": n + " @"}[self.mode]
+            return {"val": n, "cref": "const %s &" % n, "ref": n + " &", "sptr": n + " *", "rptr": n + " @",
+                    "cref_peer": "const %s &" % n, "ref_peer": n + " &"}[self.mode]
         if self.kind == "eig" and self.mode == "cref":
             return "const %s &" % n
         return n
@@ -45,7 +46,7 @@ class PType:
             n = "std::string"
         if self.kind == "class":
             return {"val": n, "cref": "const %s&" % n, "ref": n + "&", "sptr": "std::shared_ptr<%s>" % n,
-                    "rptr": n + "*"}[self.mode]
+                    "rptr": n + "*", "cref_peer": "const %s&" % n, "ref_peer": n + "&"}[self.mode]
         if self.kind == "eig" and self.mode == "cref":
             return "const %s&" % n
         return n
@@ -341,6 +342,12 @@ class ProgGen:
         targets = [c] + [a for a in self.p.ancestors(c) if getattr(a, "tpl", None) is None]
         tgt = t.pick(targets, "ref-target")
         mode = t.pick(["cref", "cref", "ref"], "ref-mode")
+        if tgt is c and t.bool(0.5, "ref-to-peer"):
+            name = "peer" + ("Ref" if mode == "ref" else "") + tag
+            if not any(m.name == name for m in c.methods):
+                c.methods.append(PFunc("method", name, PType("class", c.qname, mode + "_peer"),
+                                       self.args(1, allow_class=False), const=(mode == "cref")))
+            return
         name = ("self" if tgt is c else "as" + tgt.name) + ("Ref" if mode == "ref" else "") + tag
         if any(m.name == name for m in c.methods):
             return
@@ -979,6 +986,12 @@ def _ret_expr(r, e="e"):
     if r.mode == "sptr":
         return "std::shared_ptr<%s> rv = lib::ret_shared<%s>(\"%s\"); e.ret = lib::enc_obj(rv.get());" % (
             r.name, r.name, r.name)
+    if r.mode in ("cref_peer", "ref_peer"):
+        # a reference to ANOTHER object of the class, owned by this one (a child, a neighbour): `T& f()` is not
+        # always `return *this`
+        return ("if (!this->peer_) { this->peer_ = std::make_shared<%s>(typename %s::LibTag()); "
+                "lib::owns(this, this->peer_.get()); } %s rv = *this->peer_; e.ret = lib::enc_obj(&rv);"
+                % (r.name, r.name, r.cpp()))
     if r.mode in ("cref", "ref"):
         # a reference to the object itself (declared in the class or in a class derived from it): the wrapper
         # must hand MATLAB a copy that it owns, never an alias of an object owned by another handle
@@ -1075,6 +1088,8 @@ def emit_library(p):
                                                  _body(f, "this->serial", f.ret)))
         for f in c.statics:
             out.append("  static %s %s(%s) { %s }" % (_cpp_ret(f.ret), f.name, _sig(f.args), _body(f, "0", f.ret)))
+        if any(not isinstance(f.ret, tuple) and f.ret is not None and str(f.ret.mode).endswith("_peer") for f in c.methods):
+            out.append("  mutable std::shared_ptr<%s> peer_;" % c.name)
         for pn, pt in c.props:
             init = {"int": " = 0", "double": " = 0.0", "bool": " = false", "size_t": " = 0"}.get(pt.name, "")
             if pt.kind == "class":
